@@ -103,7 +103,9 @@ else:
             """
             if type(ref) is not ForwardRef:
                 return ref
-            if ref.__forward_evaluated__:
+            # (Only a reference which names its module remembers: `typing` shares the ones it
+            #   makes - `List["Node"]` - between every module that writes the same text.)
+            if ref.__forward_evaluated__ and ref.__forward_module__ is not None:
                 return ref.__forward_value__
 
             if ref.__forward_module__ is None and globalns is None:
